@@ -816,6 +816,10 @@ MUTANTS = [
            expect_rule="cadence/absorption-test-on-clock-reading"),
     Mutant("interval-number-rounded-down-instead-of-toward-zero", TASK, "        intervalNum = int(elapsedTime / self.interval)\n", "        intervalNum = elapsedTime // self.interval\n",
            expect_rule="count/telescoping-symbolic"),
+    Mutant("module-helper-tests-absorption-against-elapsed-time", TASK, "        self.call = self.clock.callLater(howLong(), self)\n", "        wait = _untilNextTick(self.starttime, self.interval, when)\n        self.call = self.clock.callLater(wait, self)\n",
+           more=[(TASK, "class LoopingCall:\n", "def _untilNextTick(origin, period, at):\n    if period == 0:\n        return 0\n    into = at - origin\n    left = period - (into % period)\n    absorbed = into + left == into\n    return period if absorbed else left\n\n\nclass LoopingCall:\n")], expect_rule="cadence/absorption-test-on-clock-reading"),
+    Mutant("reset-re-anchors-on-a-stale-snapshot", TASK, "            self.starttime = self.clock.seconds()\n            self._scheduleFrom(self.starttime)\n",
+           "            again = self.starttime\n            self.starttime = again\n            self._scheduleFrom(again)\n", expect_rule="who-may-write/starttime"),
     Mutant("count-boundary-off-by-one", TASK, "            if count > 0:\n                self._realLastTime = now\n", "            if count > 1:\n                self._realLastTime = now\n",
            expect_rule="count/sum-equals-boundaries"),
     Mutant("count-forgets-immediate-call", TASK, "                    lastTime -= self.interval\n", "                    pass\n",
@@ -890,4 +894,8 @@ SILENT = [
                  (TASK, "        if self.call is not None:\n            self.call.cancel()\n            self.call = None\n            self.starttime = self.clock.seconds()\n",
                   "        if self._dropPending():\n            self.starttime = self.clock.seconds()\n"),
                  (TASK, "        if self.call is not None:\n            self.call.cancel()\n            self.call = None\n            d, self._deferred", "        if self._dropPending():\n            d, self._deferred")]),
+    # --- third round: snapshot locals for the clock readings, the delay computed by a module-level pure helper with one conditional return
+    Silent("snapshot-locals-and-module-level-delay-helper", TASK, "        self.call = self.clock.callLater(howLong(), self)\n", "        wait = _untilNextTick(self.starttime, self.interval, when)\n        self.call = self.clock.callLater(wait, self)\n",
+           more=[(TASK, "class LoopingCall:\n", "def _untilNextTick(origin, period, at):\n    if period == 0:\n        return 0\n    into = at - origin\n    left = period - (into % period)\n    absorbed = at + left == at\n    return period if absorbed else left\n\n\nclass LoopingCall:\n"), (TASK, "        self.starttime = self.clock.seconds()\n        self.interval = interval\n", "        began = self.clock.seconds()\n        self.starttime = began\n        self.interval = interval\n"),
+                 (TASK, "            self.starttime = self.clock.seconds()\n            self._scheduleFrom(self.starttime)\n", "            again = self.clock.seconds()\n            self.starttime = again\n            self._scheduleFrom(again)\n")]),
 ]
